@@ -111,6 +111,9 @@ func (idp *IdP) Issue(m *LResponse, l Layout, at time.Duration) (string, error) 
 			continue
 		}
 		pt := RenderAssertion(a, l)
+		if a.Encrypt.InheritNS && a.Sign == nil && (l.PStyle == 0) {
+			pt = RenderAssertionInherited(a, l)
+		}
 		if a.Sign != nil {
 			var err error
 			pt, err = SignSlot(pt, a.ID, a.Sign)
